@@ -368,12 +368,12 @@ class Inliner:
                             tgt = bb
                     if tgt is None:
                         tgt = t["otherwise"]
-                    path.append((nxt, tgt))
+                    path.append((nxt, tgt, str(kv[1])))
                     last_useful = len(path) - 1
                     nxt = tgt
                     continue
                 break
-            path.append((nxt, None))
+            path.append((nxt, None, None))
             if t["k"] == "Goto":
                 nxt = t["target"]
             elif t["k"] == "Drop":
@@ -464,7 +464,7 @@ class Inliner:
             rename_block(sb, first)
         owner = start
         for i in range(last_useful + 1):
-            oi, tgt = path[i]
+            oi, tgt, dval = path[i]
             cp = copy.deepcopy(blocks[oi])
             cp["threaded_from"] = oi
             rename_block(cp)
@@ -474,7 +474,7 @@ class Inliner:
             if pt["k"] in ("Goto", "Call", "Drop", "Assert", "TailCall"):
                 pt["target"] = ci
             if tgt is not None:
-                cp["term"] = {"k": "Goto", "target": tgt, "threaded": True}
+                cp["term"] = {"k": "Goto", "target": tgt, "threaded": True, "decided": dval, "switch": copy.deepcopy(cp["term"])}
             owner = ci
         last = blocks[owner]
         span = last.get("tspan") or b["span"]
